@@ -100,7 +100,7 @@ theorem gen_append_ptr_alias (M : Mem) (A : Arr) (r : RArr) (h : Rep M A r) (b i
         exact hown b' ⟨i', hi'⟩
 
 /-- the shrinking branch of the translated `resize` (common to both forms of the argument) -/
-theorem resize_shrink (M : Mem) (A : Arr) (r : RArr) (h : Rep M A r) (size : Nat) (va : Option P) (hs : size < r.n)
+theorem gen_resize_shrink (M : Mem) (A : Arr) (r : RArr) (h : Rep M A r) (size : Nat) (va : Option P) (hs : size < r.n)
     (fuel : Nat) (hf : r.n < fuel) :
     Sim M A (SeqArr.resize fuel M A size va)
       (match r.cells with
@@ -139,7 +139,7 @@ theorem gen_resize (M : Mem) (A : Arr) (r : RArr) (h : Rep M A r) (size bv j : N
     (fuel : Nat) (hf : r.n + size < fuel) :
     Sim M A (SeqArr.resize fuel M A size (some (bv, j))) (Raw.resize r size x) := by
   by_cases hs : size < r.n
-  · have := resize_shrink M A r h size (some (bv, j)) hs fuel (by omega)
+  · have := gen_resize_shrink M A r h size (some (bv, j)) hs fuel (by omega)
     unfold Raw.resize
     simp only [hs, if_true]
     exact this
@@ -195,7 +195,7 @@ theorem gen_resize_alias (M : Mem) (A : Arr) (r : RArr) (h : Rep M A r) (size b 
     (hi : i < r.n) (fuel : Nat) (hf : r.n + size < fuel) :
     Sim M A (SeqArr.resize fuel M A size (some (b, i))) (Raw.resizeRef r size i) := by
   by_cases hs : size < r.n
-  · have := resize_shrink M A r h size (some (b, i)) hs fuel (by omega)
+  · have := gen_resize_shrink M A r h size (some (b, i)) hs fuel (by omega)
     unfold Raw.resizeRef
     simp only [hs, hi, if_true]
     exact this
